@@ -2,6 +2,16 @@ package main
 
 // Checks is the registry: which harness entry points decide which property, under which bounds.
 var Checks = []Check{
+	{ID: "C11", Entries: []Entry{
+		{Pkg: "net/edf", Func: "VerifC11Ints", Shards: 10, What: "real Encode -> Decode of every integer kind with a symbolic value"},
+		{Pkg: "net/edf", Func: "VerifC11Scalars", Shards: 6, Params: map[string]int64{"maxlen": 3}, Thorough: map[string]int64{"maxlen": 8},
+			What: "bool, float32/float64 bit patterns, string, []byte, gen.Atom with symbolic content and symbolic small length"},
+		{Pkg: "net/edf", Func: "VerifC11Idents", Shards: 5, What: "gen.PID/ProcessID/Ref/Alias/Event with symbolic numeric fields, with and without atom cache (symbolic cache id) and atom mapping"},
+		{Pkg: "net/edf", Func: "VerifC11Errors", Shards: 2, Params: map[string]int64{"maxlen": 2}, Thorough: map[string]int64{"maxlen": 3},
+			What: "plain errors with symbolic text (any byte, incl. '%'), registered sentinel through the error cache with a symbolic id"},
+		{Pkg: "net/edf", Func: "VerifC11StringLen", Shards: 4, MaxSteps: 40000000, What: "strings of length 65533..65536 (top of the accepted range; content one symbolic byte repeated)"},
+		{Pkg: "net/edf", Func: "VerifC11Composite", Shards: 7, What: "[]T, [n]T, map[K]V, []any, registered struct with slice/map/any/error fields, named type, nesting; nil vs empty; with and without RegCache"},
+	}},
 	{ID: "C15", Entries: []Entry{
 		{Pkg: "node", Func: "VerifC15AcceptorCookie", What: "real startAcceptor with and without an acceptor cookie (listener stubbed): the cookie demanded from incoming peers, size limit, flags"},
 		{Pkg: "node", Func: "VerifC15Tables", Shards: 2, Params: map[string]int64{"ops": 3, "names": 1}, Thorough: map[string]int64{"ops": 4, "names": 2},
